@@ -29,9 +29,10 @@ ASSUMPTIONS = [
     "socket.getnameinfo with NI_NUMERICHOST|NI_NUMERICSERV returns the numeric host and decimal port (evaluated for the concrete local endpoints below)",
 ]
 BOUNDED = [
-    "requested set: up to two eventgroups over two servers; local endpoints drawn from four concrete representatives (IPv4/IPv6 x UDP/TCP); ids, TTL and refresh interval symbolic",
+    "the END-TO-END statement ('servers end up holding exactly the requested eventgroups', model servers applying the entries in order) is checked for a requested set of up to two eventgroups over two servers; the loops and the comprehension of the subscriber are verified element-wise for arbitrarily many eventgroups and servers (ob_group_entries, ob_refresh_round_elementwise, ob_stop_elementwise, ob_send_subscribe_elementwise) and their composition into the end-to-end statement is the trusted induction over the elements",
+    "local endpoints drawn from four concrete representatives (IPv4/IPv6 x UDP/TCP); ids, TTL and refresh interval symbolic",
 ]
-EXPLANATION = "every operation is proved to keep 'servers hold exactly the requested eventgroups' for all ids, TTLs and intervals and every interleaving with the event loop's queue; the size of the requested set and the local endpoints are bounded/representative (bounded_stand_ins)"
+EXPLANATION = "every operation is proved to keep 'servers hold exactly the requested eventgroups' for all ids, TTLs and intervals and every interleaving with the event loop's queue; the loops over the requested set are verified for one arbitrary element among arbitrarily many; the end-to-end server model runs on a requested set of bounded shape and the local endpoints are representative (bounded_stand_ins)"
 
 SOCKNAMES = (
     (("192.0.2.7", 30501), H.L4Protocols.UDP),
@@ -99,7 +100,7 @@ def eg_key(eg):
 
 
 class SWorld:
-    def __init__(self, vc, name="s"):
+    def __init__(self, vc, name="s", light=False):
         self.vc = vc
         self.loop = vc.install_loop(LL.FakeLoop(vc.real(name + ".now", 0)))
         self.prot, self.sent = SS.gen_sd_protocol(vc, name + ".prot")
@@ -121,6 +122,14 @@ class SWorld:
         vc.assume(self.eg1.eventgroup_id != self.eg2.eventgroup_id)
         # arbitrary requested set (no duplicates): eg1@A optional, eg2@A or eg2@B optional
         self.requested = []
+        if light:
+            # the element-wise obligations bring their own (unbounded) requested set
+            self.alive = vc.bool(name + ".alive")
+            self.sub.alive = self.alive
+            if self.alive:
+                self.sub.task = LL.Task(self.loop, None)
+            self.heap = vc.snapshot(prot=self.prot)
+            return
         if vc.bool(name + ".eg1_requested"):
             self.requested.append((self.eg1, self.srvA))
         where2 = vc.choice(name + ".eg2_requested", ("no", "A", "B", "eg1-again-from-B"))
@@ -259,5 +268,216 @@ def ob_stop(vc):
     vc.check_eq(len(w.servers.log), n, "stop.twice_is_harmless")
 
 
-HARNESSES = [ob_create_subscribe_entry, ob_subscribe_eventgroup, ob_stop_subscribe_eventgroup, ob_subscribe_then_stop_same_iteration, ob_start_and_refresh, ob_stop]
-EXPECT_COVERS = {"ob_start_and_refresh": ["no-refresh", "cancelled", "refresh"], "ob_stop": ["silent-stop"]}
+# ================================================================== unbounded element-wise contracts
+# The obligations above run the operations against model servers for a requested set of
+# bounded shape.  The ones below state, for ARBITRARILY MANY requested eventgroups and
+# servers, what each loop / comprehension of the subscriber does with ONE ARBITRARY element;
+# "the servers hold exactly what is requested" is their composition (induction over the
+# elements, trusted rule; cross-checked by the bounded server model).
+
+
+def _gen_requested_pair(vc, name):
+    return (gen_eventgroup(vc, name + ".eventgroup"), vc.opaque(name + ".server", "addr"))
+
+
+def _gen_group_member(vc, name):
+    return vc.opaque(name, "eventgroup")
+
+
+def _gen_group(vc, name, key):
+    # what has been collected for this server so far: arbitrarily many eventgroups
+    return vc.sym_list(name + ".collected")
+
+
+def _gen_server(vc, name):
+    return vc.opaque(name, "addr")
+
+
+def _gen_groups(vc, name):
+    return vc.lazy_dict("groups", _gen_group, _gen_server, default=list)
+
+
+def _ge_head(vc, v, entering):
+    st = vc.stashed("ge")
+    st["entering"] = entering
+    if entering:
+        eg, ep = v["$target"]
+        st["pair"] = (eg, ep)
+        st["groups"] = v["endpoint_entries"]
+        st["before"] = vc.list_tail(v["endpoint_entries"][ep]) if ep in v["endpoint_entries"] else None
+    else:
+        st["result"] = v["endpoint_entries"]
+
+
+def _ge_modifies(vc, v):
+    eg, ep = v["$target"]
+    return [v["endpoint_entries"][ep]] if ep in v["endpoint_entries"] else []
+
+
+def _ge_post(vc, v):
+    st = vc.stashed("ge")
+    st["after"] = vc.list_tail(v["endpoint_entries"][st["pair"][1]])
+
+
+def _loop_items_head(vc, v, entering):
+    st = vc.stashed("items")
+    st["entering"] = entering
+    if entering:
+        st["element"] = v["$target"]
+
+
+def _ss_post(vc, v):
+    st = vc.stashed("ss")
+    st["element"] = (v["$target"], v["$elt"])
+
+
+LOOPS.update(
+    {
+        # for eventgroup, endpoint in self.subscribeentries: endpoint_entries[endpoint].append(eventgroup)
+        ("someip.sd.ServiceSubscriber._group_entries", 0): {"havoc": {"endpoint_entries": _gen_groups}, "head": _ge_head, "post": _ge_post, "modifies": _ge_modifies},
+        # for endpoint, entries in self._group_entries().items(): ...
+        ("someip.sd.ServiceSubscriber._subscribe", 1): {"head": _loop_items_head},
+        ("someip.sd.ServiceSubscriber.stop", 0): {"head": _loop_items_head},
+        # [e.create_subscribe_entry(ttl=ttl) for e in entries]
+        ("someip.sd.ServiceSubscriber._send_subscribe", "comp", 0): {"post": _ss_post},
+    }
+)
+
+
+def ob_group_entries(vc):
+    """_group_entries over ARBITRARILY MANY requested (eventgroup, server) pairs: an arbitrary
+    pair is appended to the list of exactly its server -- behind what was collected for that
+    server before, creating the list if the server is new -- and nothing else changes; the
+    result is the collected mapping"""
+    w = SWorld(vc, light=True)
+    w.sub.subscribeentries = vc.seq("requested", _gen_requested_pair)
+    st = {"entering": None, "pair": None, "before": None, "after": None, "groups": None, "result": None}
+    vc.stash("ge", st)
+    w.heap = vc.snapshot(prot=w.prot)
+    o = vc.outcome(vc.body(SD.ServiceSubscriber._group_entries), w.sub)
+    vc.check(o.kind != "raise", "_group_entries.never_raises")
+    w.check_frame("_group_entries", ())
+    if vc.native:
+        exp = {}
+        for eg, ep in w.sub.subscribeentries:
+            exp.setdefault(ep, []).append(eg)
+        vc.check(o.kind == "ret" and dict(o.value) == exp, "_group_entries.groups_the_requested_pairs_by_server_in_order")
+        return
+    if st["entering"]:
+        vc.cover("pair")
+        eg, ep = st["pair"]
+        before = st["before"] if st["before"] is not None else []
+        vc.check_eq(st["after"], before + [eg], "_group_entries.pair_appended_to_the_list_of_its_server")
+    else:
+        vc.cover("done")
+        vc.check(o.kind == "ret" and o.value is st["result"], "_group_entries.returns_the_collected_mapping")
+
+
+def _groups_world(vc):
+    """a subscriber whose _group_entries (by contract: ob_group_entries) yields an arbitrary
+    mapping server -> eventgroups"""
+    w = SWorld(vc, light=True)
+    groups = vc.lazy_dict("groups", _gen_group, _gen_server)
+    vc.stub(w.sub, "_group_entries", lambda: groups)
+    return w, groups
+
+
+def ob_refresh_round_elementwise(vc):
+    """one refresh round for ARBITRARILY MANY servers: an arbitrary (server, eventgroups)
+    group is handed to _send_start_subscribe exactly once, as it is; nothing else is sent"""
+    w, groups = _groups_world(vc)
+    started = vc.stub(w.sub, "_send_start_subscribe")
+    st = {"entering": None, "element": None}
+    vc.stash("items", st)
+    log = []
+    o = vc.outcome(vc.drive, vc.body(SD.ServiceSubscriber._subscribe)(w.sub), log, None, True)
+    vc.check(o.kind != "raise", "refresh_round.never_raises")
+    if vc.native:
+        # a replay runs whole rounds: every round hands each group over exactly once
+        items = [(k, v) for k, v in groups.items()]
+        n = len(items)
+        ok = (n == 0 and len(started) == 0) or (n > 0 and len(started) % n == 0 and len(started) >= n)
+        for i in range(len(started)):
+            if n > 0:
+                ok = ok and started[i][0] is items[i % n][0] and started[i][1] is items[i % n][1]
+        vc.check(ok, "refresh_round.group_sent_exactly_once")
+        return
+    if st["entering"]:
+        vc.cover("group")
+        vc.check_eq(len(started), 1, "refresh_round.group_sent_exactly_once")
+        if len(started) == 1:
+            vc.check(started[0][0] is st["element"][0] and started[0][1] is st["element"][1], "refresh_round.group_sent_to_its_server_as_collected")
+    else:
+        vc.check_eq(len(started), 0, "refresh_round.nothing_sent_beyond_the_groups")
+    vc.check_eq(len(w.servers.log), 0, "refresh_round.sends_only_through_send_start_subscribe")
+
+
+def ob_stop_elementwise(vc):
+    """stop(send_stop_subscribe=True) for ARBITRARILY MANY servers: for an arbitrary
+    (server, eventgroups) group exactly one _send_stop_subscribe(server, eventgroups) is
+    queued on the loop; nothing is sent directly"""
+    w, groups = _groups_world(vc)
+    vc.assume(w.alive)
+    st = {"entering": None, "element": None}
+    vc.stash("items", st)
+    n0 = len(w.loop.pending())
+    o = vc.outcome(vc.body(SD.ServiceSubscriber.stop), w.sub, True)
+    vc.check(o.kind != "raise", "stop.never_raises")
+    if vc.native:
+        pend = [p_ for p_ in w.loop.pending()[n0:] if p_[0] == w.sub._send_stop_subscribe]
+        items = [(k, v) for k, v in groups.items()]
+        ok = len(pend) == len(items)
+        for i in range(min(len(pend), len(items))):
+            ok = ok and pend[i][1][0] is items[i][0] and pend[i][1][1] is items[i][1]
+        vc.check(ok, "stop.one_stop_subscribe_queued_per_server")
+        return
+    pend = w.loop.pending()[n0:]
+    mine = [p_ for p_ in pend if p_[0] == w.sub._send_stop_subscribe]
+    if st["entering"]:
+        vc.cover("group")
+        vc.check_eq(len(mine), 1, "stop.one_stop_subscribe_queued_per_server")
+        if len(mine) == 1:
+            vc.check(mine[0][1][0] is st["element"][0] and mine[0][1][1] is st["element"][1], "stop.stop_subscribe_for_that_server_with_its_eventgroups")
+    else:
+        vc.check_eq(len(mine), 0, "stop.nothing_queued_beyond_the_groups")
+    vc.check_eq(len(w.servers.log), 0, "stop.sends_through_the_loop")
+
+
+def ob_send_subscribe_elementwise(vc):
+    """_send_subscribe(ttl, server, eventgroups) for ARBITRARILY MANY eventgroups: one
+    message, to that server only, with one entry per eventgroup (an arbitrary one: exactly
+    its create_subscribe_entry(ttl)), in the given order"""
+    w = SWorld(vc, light=True)
+    ttl = vc.int("ttl", 0, 0xFFFFFF)
+    srv = vc.opaque("server", "addr")
+    egs = vc.seq("eventgroups", gen_eventgroup)
+    st = {"element": None}
+    vc.stash("ss", st)
+    sent = vc.stub(w.prot, "send_sd")  # plain recorder: (entries, remote)
+    o = vc.outcome(vc.body(SD.ServiceSubscriber._send_subscribe), w.sub, ttl, srv, egs)
+    vc.check(o.kind != "raise", "_send_subscribe.never_raises")
+    if vc.native:
+        vc.check_eq([(list(m[0]), m[1]) for m in sent], [([e.create_subscribe_entry(ttl=ttl) for e in egs], srv)], "_send_subscribe.one_message_with_one_entry_per_eventgroup")
+        return
+    if o.kind == "cut":
+        vc.cover("eventgroup")
+        eg, entry = st["element"]
+        vc.check_eq(entry, eg.create_subscribe_entry(ttl=ttl), "_send_subscribe.entry_is_the_eventgroups_subscribe_entry_with_the_ttl")
+        vc.check_eq(len(sent), 0, "_send_subscribe.nothing_sent_before_the_list_is_complete")
+    else:
+        vc.cover("sent")
+        vc.check_eq(len(sent), 1, "_send_subscribe.exactly_one_message")
+        if len(sent) == 1:
+            vc.check(sent[0][1] is srv, "_send_subscribe.to_its_server_only")
+            vc.check_eq(len(sent[0][0]), len(egs), "_send_subscribe.one_entry_per_eventgroup")
+
+
+HARNESSES = [ob_create_subscribe_entry, ob_subscribe_eventgroup, ob_stop_subscribe_eventgroup, ob_subscribe_then_stop_same_iteration, ob_start_and_refresh, ob_stop, ob_group_entries, ob_refresh_round_elementwise, ob_stop_elementwise, ob_send_subscribe_elementwise]
+EXPECT_COVERS = {
+    "ob_start_and_refresh": ["no-refresh", "cancelled", "refresh"],
+    "ob_stop": ["silent-stop"],
+    "ob_group_entries": ["pair", "done"],
+    "ob_refresh_round_elementwise": ["group"],
+    "ob_stop_elementwise": ["group"],
+    "ob_send_subscribe_elementwise": ["eventgroup", "sent"],
+}
